@@ -123,6 +123,11 @@ func mergeConfigDict(opts *options, to, from *Config) Error {
 			return err
 		}
 
+		if mergedInPlace(old, merged) {
+			// old has been updated in place, keep it so existing child
+			// handles stay attached
+			continue
+		}
 		to.fields.set(k, merged.cpy(ctx))
 	}
 
@@ -195,6 +200,9 @@ func mergeConfigMergeArr(opts *options, to, from *Config) Error {
 		if err != nil {
 			return err
 		}
+		if mergedInPlace(old, merged) {
+			continue
+		}
 		to.fields.setAt(i, parent, merged.cpy(ctx))
 	}
 
@@ -226,6 +234,17 @@ func mergeConfigPrependArr(opts *options, to, from *Config) Error {
 func mergeConfigAppendArr(opts *options, to, from *Config) Error {
 	to.fields.append(cfgSub{to}, from.fields.array())
 	return nil
+}
+
+// mergedInPlace reports whether merged is the sub-configuration already
+// stored as old, which mergeValues has updated in place.
+func mergedInPlace(old, merged value) bool {
+	o, ok := old.(cfgSub)
+	if !ok {
+		return false
+	}
+	m, ok := merged.(cfgSub)
+	return ok && o.c == m.c
 }
 
 func mergeValues(opts *options, old, v value) (value, Error) {
